@@ -5,7 +5,7 @@ id=$1; src=$2; wt=$(mktemp -d /tmp/seedchk_XXXX); rmdir $wt
 git -C /repo worktree add -f --detach $wt HEAD >/dev/null 2>&1 || { echo "$id: worktree failed"; exit 2; }
 trap 'git -C /repo worktree remove --force $wt >/dev/null 2>&1' EXIT
 cd $wt
-build=$(grep -m1 -oE 'cc -I[^`"*]*-o demo' $src/demo.c | head -1); [ -z "$build" ] && build="cc -I libscpi/inc -I libscpi/src demo.c libscpi/src/*.c -lm -o demo"
+build=$(grep -m1 -oE 'cc [^`"]*-o demo' $src/demo.c | head -1); [ -z "$build" ] && build="cc -I libscpi/inc -I libscpi/src demo.c libscpi/src/*.c -lm -o demo"
 cp $src/demo.c . 
 eval "$build" >/dev/null 2>&1 && ./demo >/tmp/seed_$id.orig 2>&1; r_orig=$?
 git apply $src/patch.diff || { echo "$id: patch does not apply to HEAD"; exit 2; }
